@@ -9,7 +9,10 @@ import RimeModel.C15.Model
                           prefixed by `<script> `; then `#count <n>`
 
 script : ops joined by `,` : maint:<3 bits> maint_nochange sync:<3 bits> recover:<bit> is_maint join
-         create find ctx set_handler
+         create find ctx set_handler  maintq:<3 bits> maint_noinst run_task:<bit> run_unknown
+         deploy_ws:<4 bits> deploy_schema:<bit> deploy_config:<bit> prebuild:<bit> start:<mode bit>
+         destroy cleanup_all cleanup_stale finalize initialize clear_handler
+         tick:<0|1|2> (1 s, Session::kLifeSpan, kLifeSpan + 1 s pass)
 sched  : string over {c,w} (`-` = empty); lenient policy + completion as in `runSchedule`.
 trace  : events `ret:<op>:<v>` `sched:<id>:<ok>` `run:<id>:<ok>` `note:<n>` `done`, then `left:<ids>`
 monitors (evaluated on the MODEL's states): `lost-task`, `task-twice`, `notes-grammar`, `deadlock`, or `-`
@@ -37,6 +40,38 @@ def parseOp (t : String) : Option Op :=
   | ["find"] => some .find
   | ["ctx"] => some .ctx
   | ["set_handler"] => some .setHandler
+  | ["maintq", b] => match bits? b with
+    | some os => if os.length == 3 then some (.maintQuick os) else none
+    | none => none
+  | ["maint_noinst"] => some .maintNoInst
+  | ["run_task", b] => match bits? b with
+    | some [o] => some (.runSync .runTask [o])
+    | _ => none
+  | ["run_unknown"] => some (.runSync .runUnknown [false])
+  | ["deploy_ws", b] => match bits? b with
+    | some os => if os.length == 4 then some (.runSync .deployWs os) else none
+    | none => none
+  | ["deploy_schema", b] => match bits? b with
+    | some [o] => some (.runSync .deploySchema [o])
+    | _ => none
+  | ["deploy_config", b] => match bits? b with
+    | some [o] => some (.runSync .deployConfig [o])
+    | _ => none
+  | ["prebuild", b] => match bits? b with
+    | some [o] => some (.runSync .prebuild [o])
+    | _ => none
+  | ["start", b] => match bits? b with
+    | some [m] => some (.startDirect m)
+    | _ => none
+  | ["destroy"] => some .destroy
+  | ["cleanup_all"] => some .cleanupAll
+  | ["cleanup_stale"] => some .cleanupStale
+  | ["finalize"] => some .finalize
+  | ["initialize"] => some .initialize
+  | ["clear_handler"] => some .clearHandler
+  | ["tick", "0"] => some (.tick 1)
+  | ["tick", "1"] => some (.tick lifeSpan)
+  | ["tick", "2"] => some (.tick (lifeSpan + 1))
   | _ => none
 
 def parseScript (s : String) : Option (List Op) :=
@@ -54,6 +89,11 @@ def kindName : OpKind → String
   | .maint => "maint" | .maintNoChange => "maint_nochange" | .sync => "sync" | .recover => "recover"
   | .isMaint => "is_maint" | .join => "join" | .create => "create" | .find => "find" | .ctx => "ctx"
   | .setHandler => "set_handler"
+  | .maintQuick => "maintq" | .maintNoInst => "maint_noinst" | .runTask => "run_task" | .runUnknown => "run_unknown"
+  | .deployWs => "deploy_ws" | .deploySchema => "deploy_schema" | .deployConfig => "deploy_config"
+  | .prebuild => "prebuild" | .startDirect => "start" | .destroy => "destroy" | .cleanupAll => "cleanup_all"
+  | .cleanupStale => "cleanup_stale" | .finalize => "finalize" | .initialize => "initialize"
+  | .clearHandler => "clear_handler" | .tick => "tick"
 
 def b01 (b : Bool) : String := if b then "1" else "0"
 
@@ -61,13 +101,13 @@ def showEv : Ev → String
   | .ret k v => s!"ret:{kindName k}:{v}"
   | .sched t => s!"sched:{t.id}:{b01 t.ok}"
   | .run t => s!"run:{t.id}:{b01 t.ok}"
-  | .note .start => "note:start"
-  | .note .success => "note:success"
-  | .note .failure => "note:failure"
+  | .note .start _ => "note:start"
+  | .note .success _ => "note:success"
+  | .note .failure _ => "note:failure"
   | .done => "done"
 
 def showTrace (s : State) : String :=
-  let evs := s.log.map showEv
+  let evs := (s.log.filter Ev.observable).map showEv
   let left := if s.queue.isEmpty then "-" else ",".intercalate (s.queue.map (fun t => toString t.id))
   " ".intercalate (evs ++ [s!"left:{left}"])
 
@@ -81,7 +121,7 @@ def addViol (acc : List String) (v : List String) : List String :=
   v.foldl (fun a x => if a.contains x then a else a ++ [x]) acc
 
 def finalViol (s : State) : List String :=
-  (if s.working then [] else if notesOk 0 s.notes then [] else ["notes-grammar"])
+  (if s.working then [] else if notesOk 0 s.sent then [] else ["notes-grammar"])
   ++ (if s.quiescent && (!s.script.isEmpty || !s.atBoundary) then ["deadlock"] else [])
 
 def showViol (v : List String) : String := if v.isEmpty then "-" else ",".intercalate v
